@@ -88,6 +88,10 @@ pub(crate) trait Scenario {
     fn on_quiescent(&self, _sim: &mut Sim) -> bool {
         false
     }
+    /// called during a process restart, after the client was reopened and before the peers
+    /// connect again (what happened in the world while the client was down)
+    fn on_restart(&self, _sim: &mut Sim) {
+    }
 }
 
 fn truncate_filters(m: &InFlight, j: usize) -> Option<InFlight> {
@@ -151,7 +155,12 @@ pub(crate) fn applicable_devs(sc: &dyn Scenario, sim: &Sim) -> Vec<Dev> {
 }
 
 pub(crate) fn restart_all(sim: &mut Sim) {
+    restart_all_pre(sim, &|_| {})
+}
+
+pub(crate) fn restart_all_pre(sim: &mut Sim, while_down: &dyn Fn(&mut Sim)) {
     sim.restart();
+    while_down(sim);
     // the chain of every connected view grows by one empty block
     let ids: Vec<(usize, usize, u64)> = sim
         .world
@@ -502,6 +511,7 @@ pub(crate) fn run_with_crashes(
     if !count_init_writes {
         arm_crash(crash_at);
     }
+    sim.record_trace = std::env::var("VERIF_TRACE").is_ok();
     let map: BTreeMap<usize, &Dev> = devs.iter().map(|(s, d)| (*s, d)).collect();
     let mut idle = 0usize;
     let mut step = 0usize;
@@ -535,7 +545,7 @@ pub(crate) fn run_with_crashes(
                 // the second crash, during the recovery: restart once more and go on
                 second_crash_reached = true;
                 disarm_crash();
-                let r2 = panics::catch(|| restart_all(&mut sim));
+                let r2 = panics::catch(|| restart_all_pre(&mut sim, &|s| sc.on_restart(s)));
                 if let Err(p) = r2 {
                     reopen_panic = Some(p);
                     break;
@@ -570,7 +580,7 @@ pub(crate) fn run_with_crashes(
             restarted = true;
             // write points of the recovery are counted from here; a second crash may be armed
             arm_crash(second_pending.take());
-            let r2 = panics::catch(|| restart_all(&mut sim));
+            let r2 = panics::catch(|| restart_all_pre(&mut sim, &|s| sc.on_restart(s)));
             if let Err(p) = r2 {
                 reopen_panic = Some(p);
                 break;
@@ -584,7 +594,7 @@ pub(crate) fn run_with_crashes(
                         second_crash_reached = true;
                         disarm_crash();
                         let r4 = panics::catch(|| {
-                            restart_all(&mut sim);
+                            restart_all_pre(&mut sim, &|s| sc.on_restart(s));
                             apply_dev(sc, &mut sim, d)
                         });
                         if let Err(p) = r4 {
